@@ -1,10 +1,14 @@
 import TbbVerif.Core.Proto
 import TbbVerif.Model.C20
+import TbbVerif.Model.C20Gen
+import TbbVerif.Model.C20SleepV
 
 open TbbVerif
 
 def drivers : List (String × Proto.Driver) := [
-  ("c20", C20.driver)
+  ("c20", C20.driver),
+  ("c20sl", C20.Sleep.driver C20.genSleepCfg),
+  ("c20slv", C20.Sleep.vdriver C20.genSleepCfg)
 ]
 
 def main (args : List String) : IO UInt32 := Proto.mainOf drivers args
